@@ -30,7 +30,18 @@ IDENTITY_CALLS = {
     'std::option::Option::<T>::as_deref', 'std::convert::identity',
     'std::iter::IntoIterator::into_iter', 'std::option::Option::<T>::take',
     'std::path::Path::as_ref', 'std::ffi::OsStr::new', "std::borrow::Cow::<'_, B>::into_owned",
-    'std::result::Result::<T, E>::map_err', 'blake3::Hash::as_bytes', 'hash::StrongHash::as_bytes',
+    'std::result::Result::<T, E>::map_err', 'std::result::Result::<T, E>::ok', 'blake3::Hash::as_bytes', 'hash::StrongHash::as_bytes',
+}
+# Combinators: the result derives from every argument (closures contribute their captures).
+COMBINATOR_CALLS = {
+    'std::option::Option::<T>::map_or_else', 'std::option::Option::<T>::map_or', 'std::option::Option::<T>::map',
+    'std::option::Option::<T>::unwrap_or_default', 'std::option::Option::<T>::unwrap_or_else',
+    'std::option::Option::<T>::unwrap_or', 'std::option::Option::<T>::or_else', 'std::option::Option::<T>::or',
+    'std::option::Option::<T>::and_then', 'std::option::Option::<T>::filter', 'std::option::Option::<T>::ok_or_else',
+    'std::option::Option::<T>::ok_or', 'std::result::Result::<T, E>::unwrap_or_default',
+    'std::result::Result::<T, E>::unwrap_or_else', 'std::result::Result::<T, E>::unwrap_or',
+    'std::result::Result::<T, E>::map', 'std::result::Result::<T, E>::and_then',
+    'std::result::Result::<T, E>::or_else',
 }
 # `Future::poll` returns Poll<Output>: transparent on the future, dropping the Ready payload step.
 POLL_CALLS = {'std::future::Future::poll'}
@@ -160,6 +171,8 @@ class Flow:
                                        'std::option::Option::<T>::map', 'std::convert::identity',
                                        'std::future::IntoFuture::into_future'):
                                 work.append((t['dst']['l'], mode, ty0, neg))
+                            elif c == 'std::result::Result::<T, E>::ok':
+                                work.append((t['dst']['l'], mode, 'resopt:' + ty0, neg))
                             elif c == 'std::option::Option::<T>::ok_or_else' or c == 'std::option::Option::<T>::ok_or':
                                 # Some->Ok, None->Err : keep Option naming via a mapping type
                                 work.append((t['dst']['l'], mode, 'optres:' + ty0, neg))
@@ -215,6 +228,9 @@ class Flow:
         optres = ty0.startswith('optres:')
         if optres:
             ty0 = ty0[len('optres:'):]
+        resopt = ty0.startswith('resopt:')
+        if resopt:
+            ty0 = ty0[len('resopt:'):]
         if mode == 'val':
             if ty0 == 'bool':
                 return {0: 'false', 1: 'true'}
@@ -226,6 +242,8 @@ class Flow:
         if ty0.startswith('std::ops::ControlFlow<'):
             return {0: 'Continue', 1: 'Break'}
         if mode == 'discr':
+            if resopt:
+                return {0: 'Err', 1: 'Ok'}      # Option discr of r.ok(): None(0)<-Err, Some(1)<-Ok
             if optres:
                 return {0: 'Some', 1: 'None'}   # Result discr of ok_or(..): Ok(0)<-Some, Err(1)<-None
             if base == 'Result':
@@ -234,6 +252,8 @@ class Flow:
                 return {0: 'None', 1: 'Some'}
             return ENUMS.get(strip_refs(ty0))
         if mode == 'trydiscr':
+            if resopt:
+                return {0: 'Ok', 1: 'Err'}
             if optres:
                 return {0: 'Some', 1: 'None'}
             if base == 'Result':
@@ -413,6 +433,12 @@ class Flow:
         if c in IDENTITY_CALLS and t['args']:
             for x in self.origins(t['args'][0], path, depth, interproc, seen, mut_calls):
                 out.add(x)
+            return
+        if c in COMBINATOR_CALLS and t['args']:
+            out.add(Origin('comb', c, path, bb))
+            for i, a in enumerate(t['args']):
+                for x in self.origins(a, path if i == 0 else (), depth, interproc, seen, mut_calls):
+                    out.add(x)
             return
         if c in POLL_CALLS and t['args']:
             p2 = path[1:] if path and path[0] == '0' else path
